@@ -381,6 +381,12 @@ func frameworkStorm(ctx *core.Ctx, ci int, provName string, inflight int, entry 
 		w.WriteHeader(500)
 		w.Write([]byte(fmt.Sprintf("recovered:%v", v)))
 	})
+	if mode == "recover-aborts" {
+		// the application's recover handler gives up the connection the way net/http asks for it (panic(http.ErrAbortHandler));
+		// the compressor was installed by dispatch itself (container switch off, route switched on): it goes back all the same
+		c.EnableContentEncoding(false)
+		c.RecoverHandler(func(v interface{}, w http.ResponseWriter) { panic(http.ErrAbortHandler) })
+	}
 	inHandler := &spinBarrier{n: int32(inflight)}
 	if mode == "filter-reads-body" {
 		// a container filter (audit, validation) reads the gzip-encoded entity itself, also for requests that never reach a
@@ -398,7 +404,11 @@ func frameworkStorm(ctx *core.Ctx, ci int, provName string, inflight int, entry 
 		}))
 	}
 	ws := new(restful.WebService).Path("/s")
-	ws.Route(ws.GET("/get").To(func(req *restful.Request, resp *restful.Response) {
+	getRoute := ws.GET("/get")
+	if mode == "recover-aborts" {
+		getRoute.ContentEncodingEnabled(true)
+	}
+	ws.Route(getRoute.To(func(req *restful.Request, resp *restful.Response) {
 		id := req.Request.Header.Get("X-Id")
 		if mode == "bodiless" && !strings.HasSuffix(id, "0") {
 			// responses without a body: nothing at all, a bare status, a zero-length Write
@@ -415,7 +425,7 @@ func frameworkStorm(ctx *core.Ctx, ci int, provName string, inflight int, entry 
 		resp.Write([]byte("payload-of-" + id + "-"))
 		inHandler.wait() // all requests are in flight (each holding its compressor) at once
 		resp.Write([]byte(strings.Repeat(id+";", 50)))
-		if mode == "panic" && strings.HasSuffix(id, "3") {
+		if (mode == "panic" || mode == "recover-aborts") && strings.HasSuffix(id, "3") {
 			panic("storm-panic-" + id)
 		}
 		if mode == "hijack" && strings.HasSuffix(id, "2") {
@@ -545,6 +555,9 @@ func frameworkStorm(ctx *core.Ctx, ci int, provName string, inflight int, entry 
 	ctx.Count("barrier_timeouts", int(inHandler.timeout))
 	ctx.Max("max_objects_held_at_once", l.MaxHeld())
 	for i, res := range results {
+		if mode == "recover-aborts" && strings.HasSuffix(fmt.Sprint(res.id), "3") {
+			continue // the recover handler aborted the connection on purpose: only the ledger is judged
+		}
 		if res.escape != nil {
 			ctx.Violation(ci, "c13:panic:"+where, fmt.Sprintf("request %d panicked: %v", i, res.escape), doc)
 			continue
@@ -850,7 +863,7 @@ func secondClose(ctx *core.Ctx, ci int, provName, coding string) {
 func c13(ctx *core.Ctx) {
 	quietLogs()
 	atomic.StoreInt32(&c13Abort, 0)
-	ctx.Rule("providers {sync.Pool, bounded cache with (writers, readers) capacity (0,0)/(1,1)/(2,1)/(8,3), custom mutex free-list} behind an instrumenting provider (ledger + trip-wire + history). (A) direct storms: g in {2,4,8} goroutines acquire, use and close a writer, then release together through a spin barrier. (B) storms through Dispatch/ServeHTTP with in-flight in {1,2,capacity,capacity+1,16,64,100} requests all held inside the handler at once, modes {normal (release barrier inside the compressor flush), failing underlying writer, panicking handler with recovery, gzip request bodies via ReadEntity read in 7-byte slices, broken request bodies, handler hijacking the connection, handlers that write no body (nothing, bare 204, zero-length Write), a route that opted out of content encoding, a container filter reading gzip entities of requests that end in 404/405 or at a HandleWithFilter handler}; churn: goroutines acquire/use/release (directly and through Dispatch/ServeHTTP) back to back without barriers, so that acquires overlap releases. (C) second Close. (D) hand-over: objects of a previous provider are released into a provider before it has handed out anything (SetCompressorProvider while responses are in flight), then 10 writers of each coding and 10 readers are held at once. Every fifth storm request spells its Accept-Encoding in another letter case or with q-values / two codings. Oracle: no object handed out while held, each acquired object released exactly once, no write through a released writer, every response/request body decodes to its own payload, nobody parked forever in Release/Close (goroutine state), per-object acquire/release history linearizable against a mutex (porcupine). Race detector on. Non-trivial = a storm with >= 2 holders; distinct by (kind, provider, holders, entry, mode, coding).")
+	ctx.Rule("providers {sync.Pool, bounded cache with (writers, readers) capacity (0,0)/(1,1)/(2,1)/(8,3), custom mutex free-list} behind an instrumenting provider (ledger + trip-wire + history). (A) direct storms: g in {2,4,8} goroutines acquire, use and close a writer, then release together through a spin barrier. (B) storms through Dispatch/ServeHTTP with in-flight in {1,2,capacity,capacity+1,16,64,100} requests all held inside the handler at once, modes {normal (release barrier inside the compressor flush), failing underlying writer, panicking handler with recovery, gzip request bodies via ReadEntity read in 7-byte slices, broken request bodies, handler hijacking the connection, handlers that write no body (nothing, bare 204, zero-length Write), a route that opted out of content encoding, a container filter reading gzip entities of requests that end in 404/405 or at a HandleWithFilter handler, a recover handler that aborts the connection with panic(http.ErrAbortHandler) while the route's own encoding switch is on}; churn: goroutines acquire/use/release (directly and through Dispatch/ServeHTTP) back to back without barriers, so that acquires overlap releases. (C) second Close. (D) hand-over: objects of a previous provider are released into a provider before it has handed out anything (SetCompressorProvider while responses are in flight), then 10 writers of each coding and 10 readers are held at once. Every fifth storm request spells its Accept-Encoding in another letter case or with q-values / two codings. Oracle: no object handed out while held, each acquired object released exactly once, no write through a released writer, every response/request body decodes to its own payload, nobody parked forever in Release/Close (goroutine state), per-object acquire/release history linearizable against a mutex (porcupine). Race detector on. Non-trivial = a storm with >= 2 holders; distinct by (kind, provider, holders, entry, mode, coding).")
 	ctx.Assume("the ledger adds after the inner acquire and removes before the inner release: it cannot false-alarm on provider-internal ordering")
 	defer func() {
 		// after an abort goroutines of the unfinished storm may still be serving: the package-wide provider is left alone
@@ -906,7 +919,7 @@ func c13(ctx *core.Ctx) {
 			}
 		}
 	}
-	modes := []string{"normal", "failing-writer", "panic", "request-bodies", "broken-bodies", "hijack", "bodiless", "route-opt-out", "filter-reads-body"}
+	modes := []string{"normal", "failing-writer", "panic", "request-bodies", "broken-bodies", "hijack", "bodiless", "route-opt-out", "filter-reads-body", "recover-aborts"}
 	reps := ctx.N(1, 12)
 	for rep := 0; rep < reps; rep++ {
 		for _, prov := range c13Providers {
